@@ -64,3 +64,19 @@ package main
 //@   safety none
 //@   lit 1: requires absIn == absOf(dstIdxFile)
 //@   lit 1: oncall NewIndexSeed: requires absOf(path) != absOf(dstIdxFile) && $arg0 == dstFile && $arg1 == trimSuffix(path, ".caibx")
+
+// ---------------------------------------------------------------------------- C16
+
+//# prune: the keep-set handed to the store holds the chunk IDs of every index file named on the command line,
+//# not just those of the last one: an ID once put into the set is in the set that reaches Prune
+//@ ghost var $kept map[desync.ChunkID]bool
+//@ func runPrune
+//@   prop C16
+//@   safety none
+//# ($kept is ghost bookkeeping: empty when the command starts)
+//@   assume@entry forall k desync.ChunkID :: !$kept[k]
+//@   ghost@mapstore:ids $kept[$k] = true
+//@   loop 1: invariant forall k desync.ChunkID :: $kept[k] ==> has(ids, k)
+//@   loop 2: invariant forall k desync.ChunkID :: $kept[k] ==> has(ids, k)
+//@   assert@loop2.iterend $kept[c.ID]
+//@   oncall Prune: requires forall k desync.ChunkID :: $kept[k] ==> has($arg1, k)
